@@ -236,42 +236,49 @@ def nfa_next_state(cx, which):
     return cx.body('<nfa::%s::NFA as automaton::Automaton>::next_state' % which)
 
 
-def r09_2(cx):
-    for which in ('noncontiguous', 'contiguous'):
-        b = nfa_next_state(cx, which)
+class FailLoop:
+    """The failure loop of an NFA next_state on iteration summaries: header, the loop-carried state variable S (the only
+    modified local whose arrival value an iteration reads), the rows that repeat and the rows that return."""
+    def __init__(self, cx, which):
+        from acverif.sym import Sym, loop_rows, live_in
+        self.b = b = nfa_next_state(cx, which)
+        self.ok = False
         loops = b.loops()
         if not loops:
-            cx.bad('R09.2', b, 'loop', 'next_state has no failure loop')
+            return
+        self.h = h = max(loops, key=lambda x: len(loops[x]))
+        self.rows = loop_rows(cx.facts, b, h)
+        self.live = live_in(cx.facts, b, h)
+        sym = Sym(cx.facts, b)
+        self.S = None
+        cand = [l for l in self.live if re.search(r'^util::primitives::StateID$', b.locals[l]['ty'])]
+        if len(cand) == 1:
+            self.S = cand[0]
+            self.St = sym.default_local(self.S)
+        self.anch = param_of_type(b, r'^util::search::Anchored$')
+        self.repeat = [r for r in self.rows if r.end == ('stop', h)]
+        self.ok = self.S is not None and bool(self.repeat)
+
+    def anchored_val(self, r):
+        from acverif.sym import canon
+        for c, v in r.conds:
+            cc = canon(c)
+            if is_call(cc, r'Anchored::is_anchored$') and self.anch and peel(cc[2][0]) == self.anch:
+                return v
+        return None
+
+
+def r09_2(cx):
+    for which in ('noncontiguous', 'contiguous'):
+        K = FailLoop(cx, which)
+        b = K.b
+        if not K.ok:
+            cx.bad('R09.2', b, 'fail-link-guard', 'next_state: failure loop / loop-carried state id not recognised')
             continue
-        sidp = param_of_type(b, r'^util::primitives::StateID$')
-        anchp = param_of_type(b, r'^util::search::Anchored$')
-        sl = [sidp[2]] if sidp else []
-        # stores to sid inside the loop = following the failure link
-        ok = True
-        n = 0
-        ag = bool_gates(b, lambda x: is_call(x, r'Anchored::is_anchored$') and peel(x[2][0]) == anchp)
-        cutf = [e for g in ag for e in g[3]]
-        for l in sl:
-            for bi, si, t in var_defs_terms(b, l):
-                if any(bi in blks for blks in loops.values()):
-                    n += 1
-                    if not ag or reachable_without(b, [bi], cutf):
-                        ok = False
-        # the anchored edge returns DEAD
-        okd = bool(ag)
-        for g in ag:
-            for _, tg in g[2]:
-                r = b.reach(tg)
-                rets = [x for x in r if any(st['k'] == 'assign' and st['p']['l'] == 0 and not st['p']['pr'] for st in b.blocks[x]['stmts'])]
-                vals = [b.rvalue_term(st['r'], 0, x) for x in rets for st in b.blocks[x]['stmts'] if st['k'] == 'assign' and st['p']['l'] == 0 and not st['p']['pr']]
-                # first assignment reached on the anchored edge must be DEAD, and no loop back
-                first = b.reach(tg, cut_blocks=rets)
-                if any(h in first for h in loops):
-                    okd = False
-                firstvals = [b.rvalue_term(st['r'], 0, x) for x in rets if x in first for st in b.blocks[x]['stmts'] if st['k'] == 'assign' and st['p']['l'] == 0 and not st['p']['pr']]
-                if not firstvals or not all(t[0] == 'k' and t[1].endswith('NFA::DEAD') and t[2] == 0 for t in firstvals):
-                    okd = False
-        cx.report('R09.2', b, 'fail-link-guard', ok and n >= 1, 'the failure link is followed only on the unanchored edge (%d loop-carried sid update)' % n if ok and n else 'the failure link can be followed in an anchored search')
+        ok = all(K.anchored_val(r) is False for r in K.repeat)
+        cx.report('R09.2', b, 'fail-link-guard', ok, 'the failure link is followed only when the search is not anchored (%d repeating path(s))' % len(K.repeat) if ok else 'the failure link can be followed in an anchored search')
+        dead = [r for r in K.rows if K.anchored_val(r) is True]
+        okd = bool(dead) and all(r.end == 'return' and r.ret is not None and peel(r.ret)[0] == 'k' and peel(r.ret)[1].endswith('NFA::DEAD') and peel(r.ret)[2] == 0 for r in dead)
         cx.report('R09.2', b, 'anchored-dead', okd, 'in anchored mode a missing transition yields DEAD' if okd else 'the anchored edge does not return DEAD')
 
 
@@ -634,35 +641,35 @@ def r19_3(cx):
             if not drives:
                 okin = False
         cx.report('R19.3', b, 'loop-shape', okin, 'one failure loop%s' % (' plus %d bounded iterator loop(s) nested in it' % len(inner) if inner else '') if okin else 'unexpected loop structure')
-        # loop-carried variables of the failure loop: only sid
-        carried = set()
-        for bi in blks:
-            for st in b.blocks[bi]['stmts']:
-                if st['k'] == 'assign' and not st['p']['pr'] and b.locals[st['p']['l']]['names']:
-                    l = st['p']['l']
-                    nm = b.locals[l]['names'][0]
-                    outside = [d for d in b.defs().get(l, []) if d[0] not in blks]
-                    if outside or l <= b.j['arg_count']:
-                        carried.add(nm)
-        sidname = {b.locals[x]['names'][0] for x in sl if b.locals[x]['names']}
-        cx.report('R19.3', b, 'carried', carried == sidname and bool(sidname), 'the only loop-carried variable of the failure loop is the state id' if carried == sidname and sidname else 'loop-carried variables: %s' % sorted(carried))
-        # every trip around the failure loop passes the store sid <- failure link
-        sidp = param_of_type(b, r'^util::primitives::StateID$')
-        sl = [sidp[2]] if sidp else []
-        stores = [(bi, si, tm) for l in sl for bi, si, tm in var_defs_terms(b, l) if bi in blks]
-        okf = len(stores) == 1
+        # loop-carried state of the failure loop: only the state id
+        from acverif.sym import canon, cstr, teval, by_cstr
+        K = FailLoop(cx, which)
+        names = sorted((b.locals[l]['names'] or ['_%d' % l])[0] for l in K.live)
+        okc = K.S is not None and K.live == {K.S}
+        cx.report('R19.3', b, 'carried', okc, 'the only loop-carried variable of the failure loop is the state id' if okc else 'loop-carried variables: %s' % names)
+        # every repetition replaces the state id by the failure link of the current state
+        okf = K.ok
+        back = [(s_, h) for s_ in b.pred(h) if s_ in blks]
         if okf:
-            v = expand_vars(b, stores[0][2], keep=('sid', 'self', 'repr', 'o'))
-            s = tstr(v, 300)
-            if which == 'noncontiguous':
-                okf = is_call(v, r'State::fail$') and 'states' in s and 'sid' in s
-            else:
-                # u32tosid(repr[o + 1]) with o = sid.as_usize()
-                idx = [x[2] for x in subterms(v) if x[0] == 'idx'] + [x[2][1] for x in subterms(v) if is_call(x, r'Index::index$')]
-                okf = bool(idx) and any(affine_str(expand_vars(b, x, keep=('sid',))).replace(' ', '').endswith('+1') and 'sid' in tstr(expand_vars(b, x, keep=('sid',))) for x in idx)
-        back = [(s, h) for s in b.pred(h) if s in blks]
-        okb = okf and all(not (set(x for x, _ in back) & (b.reach(h, cut_blocks=[stores[0][0]]) - {stores[0][0]})) for _ in [0])
-        cx.report('R19.3', b, 'fail-step', okf and okb, 'each repetition of the failure loop replaces sid by the current state\'s failure link' if okf and okb else 'the failure loop can repeat without following exactly the failure link of sid')
+            for r in K.repeat:
+                v = canon(r.env.get(K.S, K.St))
+                if which == 'noncontiguous':
+                    x = v
+                    if is_call(x, r'State::fail$'):
+                        x = ('f', x[2][0], 'fail')
+                    good = x[0] == 'f' and x[2] == 'fail' and (is_call(x[1], r'Index::index$') and cstr(x[1][2][0]) == 'self.states' and cstr(x[1][2][1]) == cstr(K.St)
+                                                                  or x[1][0] == 'idx' and cstr(x[1][1]) == 'self.states' and cstr(x[1][2]) == cstr(K.St))
+                else:
+                    idx = [x[2] for x in subterms(v) if x[0] == 'idx' and cstr(x[1]) == 'self.repr'] + [x[2][1] for x in subterms(v) if is_call(x, r'Index::index$') and cstr(x[2][0]) == 'self.repr']
+                    good = False
+                    if len(idx) == 1 and is_call(v, r'StateID::(from_u32_unchecked|new_unchecked)$'):
+                        try:
+                            good = teval(idx[0], by_cstr({cstr(K.St): 40})) == 41
+                        except Exception:
+                            good = False
+                if not good:
+                    okf = False
+        cx.report('R19.3', b, 'fail-step', okf, 'each repetition of the failure loop replaces sid by the current state\'s failure link' if okf else 'the failure loop can repeat without following exactly the failure link of sid')
         if which == 'noncontiguous':
             def failtest(x):
                 e = eq_cond(x)
